@@ -52,6 +52,36 @@ CHECKS.update({
         note="trusted: TLC, CLiterals.tla (C99 6.4.4/6.4.5 + named extensions), harness/lexrun.py"),
 })
 
+CHECKS.update({
+    "C01": dict(
+        category="model_checking", design_ref="DESIGN.md section 5 C01, 3.5 (CSyntax / CGram)",
+        technique="TLC-enumerated derivations of a TLA+ grammar machine (CGram.tla: C99 Annex A + C11 productions) replayed into CParser; spec validated against gcc -fsyntax-only",
+        text="TLC enumerates every complete derivation of spec/CGram.tla with at most 2 (quick) / 3 (thorough) non-default "
+             "productions - every ordered pair / triple of productions in every nesting the grammar allows, from 9 root "
+             "contexts - and samples deep derivations with -simulate; each derived program must be accepted by CParser.parse. "
+             "The grammar machine itself is validated against gcc (a derived program gcc rejects syntactically is a machinery "
+             "error, never a violation).",
+        note="trusted: TLC, CGram.tla as a reading of Annex A (cross-checked with gcc on a sample every run)"),
+    "C06": dict(
+        category="model_checking", design_ref="DESIGN.md section 5 C06, 3.9 (Session.ParseEnd), TokSeq",
+        technique="TLC-enumerated token sequences (TokSeq.tla) in 6 contexts replayed into CParser.parse, outcome checked against the two ParseEnd shapes; sampled hook traces validated against ParserTrace.tla (SingleErrorChannel)",
+        text="Every token sequence up to length 2 over the full 120-token alphabet, up to 3 over a 58-token core and up to 4 over "
+             "16 tokens (quick; one more token each in thorough), in six context prefixes, plus raw character noise, is parsed; "
+             "the outcome must be a FileAST or a ParseError whose message starts 'file:line:col: ' (a real token start) or "
+             "'file: '. A sample is additionally validated event by event against spec/ParserTrace.tla, whose End action admits "
+             "only these outcomes.",
+        note="trusted: TLC, the outcome classifier harness/outcome.py; RecursionError tolerated as the property states"),
+    "C07": dict(
+        category="model_checking", design_ref="DESIGN.md section 5 C07, 3.6 (FrontTrace), 3.8 (CGen)",
+        technique="round trip of TLC-derived programs (CGram.tla, CExpr.tla) and the corpus; the generated tokens are validated against the first AST by the AST-guided TLA+ matcher (FrontTrace.tla)",
+        text="Each program derived by TLC from the grammar machines and each corpus file is parsed, generated (both "
+             "reduce_parentheses settings), re-parsed and re-generated: trees must be equal and the second text identical. "
+             "Independently of the parser's grouping, the token sequence of the generated text must be accepted by "
+             "spec/FrontTrace.tla as a yield of the FIRST AST under the C grammar (required parentheses present, nothing "
+             "dropped or duplicated).",
+        note="trusted: TLC, FrontTrace.tla, harness/proj.py; the matcher is applied inside its domain (no _Atomic(type-name) with declarator)"),
+})
+
 PENDING = {}
 
 
